@@ -37,12 +37,15 @@ func (s pathStatus) String() string {
 
 type pathState struct {
 	prefix    []int64
+	prefixModel map[string]*Expr
 	decisions []int64
 	nondetCnt map[string]int
 	vars      []*Expr
 	varSet    map[string]*Expr
 	covers    []string
 	pcLen     int
+	decided   map[exprKey]bool // conditions implied by the path condition
+	model     map[string]*Expr // a model of the current path condition, or nil
 	steps     int64
 	unknownFeas int
 }
@@ -63,7 +66,7 @@ type explorer struct {
 
 	mu       sync.Mutex
 	cond     *sync.Cond
-	work     [][]int64
+	work     []workItem
 	active   int
 	stopped  bool
 	paths    int64
@@ -94,19 +97,24 @@ func newExplorer(cfg *runConfig, harness string) *explorer {
 	return ex
 }
 
-func (ex *explorer) push(prefix []int64) {
+type workItem struct {
+	prefix []int64
+	model  map[string]*Expr // model of the path condition at the end of prefix (may be nil)
+}
+
+func (ex *explorer) push(prefix []int64, model map[string]*Expr) {
 	ex.mu.Lock()
-	ex.work = append(ex.work, prefix)
+	ex.work = append(ex.work, workItem{prefix, model})
 	ex.mu.Unlock()
 	ex.cond.Signal()
 }
 
-func (ex *explorer) pop() ([]int64, bool) {
+func (ex *explorer) pop() (workItem, bool) {
 	ex.mu.Lock()
 	defer ex.mu.Unlock()
 	for {
 		if ex.stopped {
-			return nil, false
+			return workItem{}, false
 		}
 		if n := len(ex.work); n > 0 {
 			p := ex.work[n-1]
@@ -117,7 +125,7 @@ func (ex *explorer) pop() ([]int64, bool) {
 		if ex.active == 0 {
 			ex.stopped = true
 			ex.cond.Broadcast()
-			return nil, false
+			return workItem{}, false
 		}
 		ex.cond.Wait()
 	}
@@ -210,6 +218,53 @@ func (i *interpreter) vectorValue(full string, s Sort) *Expr {
 func (i *interpreter) addPC(c *Expr) {
 	i.sol.assert(c)
 	i.path.pcLen++
+	i.path.learn(c, true)
+	if m := i.path.model; m != nil {
+		if v := evalExpr(c, m); v == nil || !v.b {
+			i.path.model = nil
+		}
+	}
+}
+
+// holdsInModel evaluates c under the cached model of the path condition:
+// (true,true) means PC && c is satisfiable without asking the solver.
+func (i *interpreter) holdsInModel(c *Expr) (val, ok bool) {
+	m := i.path.model
+	if m == nil {
+		return false, false
+	}
+	v := evalExpr(c, m)
+	if v == nil {
+		return false, false
+	}
+	return v.b, true
+}
+
+// learn records that c has truth value v on this path (and what follows
+// from it syntactically), so that later branches on the same condition need
+// no solver query.
+func (p *pathState) learn(c *Expr, v bool) {
+	for c.op == "not" {
+		c, v = c.args[0], !v
+	}
+	if c.isConst() {
+		return
+	}
+	p.decided[c.key()] = v
+	switch {
+	case c.op == "and" && v, c.op == "or" && !v:
+		p.learn(c.args[0], v)
+		p.learn(c.args[1], v)
+	}
+}
+
+func (p *pathState) known(c *Expr) (bool, bool) {
+	inv := false
+	for c.op == "not" {
+		c, inv = c.args[0], !inv
+	}
+	v, ok := p.decided[c.key()]
+	return v != inv, ok
 }
 
 // branch decides a symbolic condition, forking if both sides are feasible.
@@ -218,10 +273,18 @@ func (i *interpreter) branch(c *Expr) bool {
 		return c.b
 	}
 	p := i.path
+	if v, ok := p.known(c); ok {
+		return v
+	}
 	n := len(p.decisions)
 	if n < len(p.prefix) {
 		d := p.prefix[n]
 		p.decisions = append(p.decisions, d)
+		if len(p.decisions) == len(p.prefix) {
+			// the work item's model satisfies the path condition up to and
+			// including this decision
+			p.model, p.prefixModel = p.prefixModel, nil
+		}
 		if d == 1 {
 			i.addPC(c)
 		} else {
@@ -232,12 +295,24 @@ func (i *interpreter) branch(c *Expr) bool {
 	if n >= i.ex.maxDecisions {
 		panic(unwindExceeded{fmt.Sprintf("more than %d symbolic decisions on one path", i.ex.maxDecisions)})
 	}
-	rT, _ := i.sol.check(c, false, nil)
-	var rF string
-	if rT == "unsat" {
-		rF = "sat"
+	var rT, rF string
+	var mT, mF map[string]*Expr
+	if val, ok := i.holdsInModel(c); ok {
+		// one side is witnessed by the cached model; ask only about the other
+		if val {
+			rT, mT = "sat", p.model
+			rF, mF = i.sol.check(mkNot(c), false, p.vars)
+		} else {
+			rF, mF = "sat", p.model
+			rT, mT = i.sol.check(c, false, p.vars)
+		}
 	} else {
-		rF, _ = i.sol.check(mkNot(c), false, nil)
+		rT, mT = i.sol.check(c, false, p.vars)
+		if rT == "unsat" {
+			rF = "sat"
+		} else {
+			rF, mF = i.sol.check(mkNot(c), false, p.vars)
+		}
 	}
 	if rT == "unknown" || rF == "unknown" {
 		p.unknownFeas++
@@ -248,16 +323,23 @@ func (i *interpreter) branch(c *Expr) bool {
 		alt := make([]int64, n+1)
 		copy(alt, p.decisions)
 		alt[n] = 0
-		i.ex.push(alt)
+		i.ex.push(alt, mF)
 		p.decisions = append(p.decisions, 1)
+		p.model = mT
 		i.addPC(c)
 		return true
 	case tOK:
 		p.decisions = append(p.decisions, 1)
+		if mT != nil {
+			p.model = mT
+		}
 		i.addPC(c)
 		return true
 	case fOK:
 		p.decisions = append(p.decisions, 0)
+		if mF != nil {
+			p.model = mF
+		}
 		i.addPC(mkNot(c))
 		return false
 	}
@@ -408,29 +490,43 @@ func (i *interpreter) cover(label string) {
 
 // ---------- worker loop
 
+// startPrimary starts the incremental solver of a worker. cvc5 takes its
+// per-query limit on the command line (the quick limit; slower queries are
+// re-run by the one-shot fallback with the full timeout).
+func startPrimary(cfg *runConfig) (*Solver, error) {
+	if strings.HasPrefix(cfg.solver, "cvc5") {
+		s, err := startSolver(cfg.solver, 4*quickMs)
+		if err == nil {
+			s.timeoutMs = cfg.timeoutMs
+		}
+		return s, err
+	}
+	return startSolver(cfg.solver, cfg.timeoutMs)
+}
+
 // gSem bounds the number of paths executing at once across all explorers.
 var gSem chan struct{}
 
 func (ex *explorer) run(prog *loadedProgram, entry string, nworkers int) {
-	ex.push(nil)
+	ex.push(nil, nil)
 	var wg sync.WaitGroup
 	for w := 0; w < nworkers; w++ {
 		wg.Add(1)
 		go func(w int) {
 			defer wg.Done()
-			sol, err := startSolver(ex.cfg.solver, ex.cfg.timeoutMs)
+			sol, err := startPrimary(ex.cfg)
 			if err != nil {
 				ex.problem("solver", err.Error())
 				return
 			}
-			defer sol.close()
+			defer func() { sol.close() }()
 			if ex.cfg.smtLog != "" && w == 0 {
 				f, _ := os.Create(ex.cfg.smtLog)
 				sol.log = f
 				defer f.Close()
 			}
 			for {
-				prefix, ok := ex.pop()
+				item, ok := ex.pop()
 				if !ok {
 					return
 				}
@@ -444,12 +540,12 @@ func (ex *explorer) run(prog *loadedProgram, entry string, nworkers int) {
 					return
 				}
 				gSem <- struct{}{}
-				ex.runPath(prog, entry, sol, prefix)
+				ex.runPath(prog, entry, sol, item)
 				<-gSem
 				ex.done()
 				if sol.dead {
 					sol.close()
-					sol, err = startSolver(ex.cfg.solver, ex.cfg.timeoutMs)
+					sol, err = startPrimary(ex.cfg)
 					if err != nil {
 						ex.problem("solver", err.Error())
 						return
@@ -461,10 +557,11 @@ func (ex *explorer) run(prog *loadedProgram, entry string, nworkers int) {
 	wg.Wait()
 }
 
-func (ex *explorer) runPath(prog *loadedProgram, entry string, sol *Solver, prefix []int64) {
+func (ex *explorer) runPath(prog *loadedProgram, entry string, sol *Solver, item workItem) {
 	sol.reset()
+	prefix := item.prefix
 	i := newInterpreter(prog, ex, sol)
-	i.path = &pathState{prefix: prefix, nondetCnt: map[string]int{}, varSet: map[string]*Expr{}}
+	i.path = &pathState{prefix: prefix, prefixModel: item.model, nondetCnt: map[string]int{}, varSet: map[string]*Expr{}, decided: map[exprKey]bool{}}
 	status, detail := i.runHarness(entry)
 	atomic.AddInt64(&ex.paths, 1)
 	atomic.AddInt64(&ex.transitions, int64(len(i.path.decisions)))
